@@ -1,6 +1,7 @@
 CONSTANTS
   V = {}
   MaxN = 3
+  Vary = FALSE
   Depth = 5
   Cover = FALSE
 SPECIFICATION GSpec
